@@ -63,6 +63,28 @@ def op_option_value(rng, data, layout):
     return name, _replace(data, off, ln, _join_header(prefix, pairs, eol))
 
 
+BIG = [b'9' * 25, b'4294967295', b'4294967296', b'18446744073709551616',
+       b'2147483648', b'9' * 400, b'0', b'-1', b'100000']
+
+
+def op_two_option_values(rng, data, layout):
+    """Two known options of one header both get hostile values (interplay
+    of length / indent / encoding / line_endings)."""
+    off, ln, s = rng.choice(_headers(layout))
+    parts = _split_header(data[off:off + ln])
+    if parts is None:
+        return None
+    prefix, pairs, eol = parts
+    k1, k2 = rng.sample(KNOWN_KEYS[:4], 2)
+    for k in (k1, k2):
+        pool = BIG if k in (b'length', b'indent') and rng.random() < 0.7 \
+            else HOSTILE_VALUES
+        pairs = [p for p in pairs if not p.startswith(k + b'=')]
+        pairs.insert(rng.randint(0, len(pairs)), k + b'=' + rng.choice(pool))
+    return ('option_values_pair:%s+%s' % (k1.decode(), k2.decode()),
+            _replace(data, off, ln, _join_header(prefix, pairs, eol)))
+
+
 def op_option_tokens(rng, data, layout):
     off, ln, s = rng.choice(_headers(layout))
     parts = _split_header(data[off:off + ln])
@@ -307,7 +329,7 @@ def op_random_bytes(rng, data, layout):
 
 
 OPERATORS = [
-    (op_option_value, 30), (op_option_tokens, 8), (op_header_newline, 5),
+    (op_option_value, 30), (op_two_option_values, 10), (op_option_tokens, 8), (op_header_newline, 5),
     (op_all_crlf_then_one_lf, 3), (op_lines, 6), (op_sections, 8),
     (op_content_undecodable, 8), (op_content_odd_bytes, 4),
     (op_content_empty, 3), (op_content_no_newline, 2),
